@@ -31,8 +31,9 @@ print(chk.stdout[-900:])
 caught = [l.split()[0] for l in chk.stdout.splitlines() if re.match(r'C\d+ exit=1', l)]
 dst = os.path.join(here, 'seeded', prop, n)
 os.makedirs(dst, exist_ok=True)
-shutil.copy(os.path.join(src, 'patch.diff'), dst)
-shutil.copy(demo, os.path.join(dst, os.path.basename(demo)))
+if os.path.abspath(src) != os.path.abspath(dst):
+    shutil.copy(os.path.join(src, 'patch.diff'), dst)
+    shutil.copy(demo, os.path.join(dst, os.path.basename(demo)))
 try:
     meta = json.load(open(os.path.join(src, 'meta.json')))
 except Exception:
